@@ -113,10 +113,47 @@ func (p *Prog) verifyFunction(f *ssa.Function, c *Contract) (res *FnResult) {
 			}
 		}
 	}
+	for _, w := range c.Witnesses {
+		if v, ok := ex.witness[w.Name]; ok {
+			vars[w.Name] = v
+		} else {
+			vars[w.Name] = SV{q.fresh("wit_"+w.Name, sInt), types.Typ[types.Int]}
+			q.note("witness %s was never captured (no call %s#%d reached)", w.Name, w.Callee, w.N)
+		}
+	}
 	post := ex.specCtx(vars, hf)
-	for _, e := range c.Ensures {
-		g := post.evalBool(e)
-		q.oblige(key+"/post."+e.Label, "post", anyRet, g, p.fset.Position(f.Pos()), "postcondition: "+e.Text)
+	if len(ex.rets) > 1 && len(ex.rets) <= 48 {
+		// one obligation per return site (ordinal in block order): sharper diagnostics
+		for k, r := range ex.rets {
+			rvars := map[string]SV{}
+			for n, v := range vars {
+				rvars[n] = v
+			}
+			for i := 0; i < nres; i++ {
+				rt := f.Signature.Results().At(i).Type()
+				if nres > 1 {
+					rvars[fmt.Sprintf("result%d", i)] = SV{r.vals[i], rt}
+				} else {
+					rvars["result"] = SV{r.vals[i], rt}
+					rvars["result0"] = SV{r.vals[i], rt}
+				}
+				if rn := f.Signature.Results().At(i).Name(); rn != "" && rn != "_" {
+					if _, isParam := ex.paramVars()[rn]; !isParam {
+						rvars[rn] = SV{r.vals[i], rt}
+					}
+				}
+			}
+			rp := ex.specCtx(rvars, r.heap)
+			for _, e := range c.Ensures {
+				g := rp.evalBool(e)
+				q.oblige(fmt.Sprintf("%s/post.%s@ret%d", key, e.Label, k+1), "post", r.reach, g, r.pos, "postcondition: "+e.Text)
+			}
+		}
+	} else {
+		for _, e := range c.Ensures {
+			g := post.evalBool(e)
+			q.oblige(key+"/post."+e.Label, "post", anyRet, g, p.fset.Position(f.Pos()), "postcondition: "+e.Text)
+		}
 	}
 	if c.Fresh && nres > 0 {
 		r0 := vars["result0"].t
